@@ -1,9 +1,25 @@
 (* One entry point for the extracted runner: property number -> run function. *)
-From Coq Require Import List ZArith.
+From Coq Require Import List ZArith Bool.
 From XV Require Import Lib.Sx.
 From XV Require Corr.RunC17.
+From XV Require Corr.RunC15.
+From XV Require Corr.RunC19.
+From XV Require Corr.RunRecv.
+From XV Require Corr.RunC20.
+From XV Require Corr.RunC06.
+From XV Require Corr.RunC16.
+From XV Require Corr.RunC14.
+(* REQUIRE-INSERTION-POINT: add "From XV Require Corr.RunCxx." above this line *)
 Open Scope Z_scope.
 
 Definition dispatch (prop : Z) : sx -> sx :=
   if prop =? 17 then RunC17.run_C17 else
+  if prop =? 15 then RunC15.run_C15 else
+  if prop =? 19 then RunC19.run_C19 else
+  if (prop =? 5) || (prop =? 9) || (prop =? 12) then RunRecv.run_recv else
+  if prop =? 20 then RunC20.run_C20 else
+  if prop =? 6 then RunC06.run_C06 else
+  if prop =? 16 then RunC16.run_C16 else
+  if prop =? 14 then RunC14.run_C14 else
+  (* DISPATCH-INSERTION-POINT: add "if prop =? NN then RunCNN.run_CNN else" above this line *)
   fun _ => decode_error.
